@@ -47,9 +47,15 @@ def residue_ids(text):
 
 
 def gen_options(rng, enabled, inp, params):
-    opts = []
+    groups = []
     sig = []
     param = None
+
+    class _Acc:
+        def __iadd__(self, toks):
+            groups.append(list(toks))
+            return self
+    opts = _Acc()
     kinds = [k for k in OPTION_KINDS if k in enabled and rng.random() < 0.45]
     rng.shuffle(kinds)
     ids, chains = residue_ids(inp['text'])
@@ -74,8 +80,10 @@ def gen_options(rng, enabled, inp, params):
         elif k == 'chain':
             if not chains:
                 continue
+            cs = []
             for c in rng.sample(chains, rng.randint(1, len(chains))):
-                opts += ['-c', c]
+                cs += ['-c', c]
+            opts += cs
         elif k == 'grid':
             opts += ['-g'] + rng.choice([['2.0', '10.0', '0.5'], ['0.0', '14.0', '0.25'],
                                          ['3.0', '9.0', '1.0']])
@@ -95,7 +103,7 @@ def gen_options(rng, enabled, inp, params):
         else:
             continue
         sig.append(k if k != 'param' else 'param:' + param)
-    return opts, param, '+'.join(sorted(sig)) or 'none'
+    return groups, param, '+'.join(sorted(sig)) or 'none'
 
 
 def gen_layout(rng):
@@ -146,7 +154,8 @@ def gen_perturbations(rng, enabled, wl_params, next_inputs, call_is_rel):
 
 def gen_call(rng, enabled_calls, inp, opts, param, pool, allow_invalid):
     kind = rng.choice(sorted(enabled_calls))
-    call = {'kind': kind, 'inputs': [inp['id']], 'options': opts, 'param': param}
+    call = {'kind': kind, 'inputs': [inp['id']], 'optgroups': opts,
+            'options': [t for g in opts for t in g], 'param': param}
     if rng.random() < 0.08:
         call['suffix'] = '.PDB'
     if kind == 'single_path':
@@ -270,7 +279,7 @@ def gen_history(seed, wl, cfg=None):
     if rng.random() < 0.5:
         def early(s):
             c = s['call']
-            return ('-d' in c['options'] or c.get('param')
+            return (['-d'] in c['optgroups'] or c.get('param')
                     or any(i.endswith('.unk') for i in c['inputs']))
         steps.sort(key=lambda s: 0 if early(s) else 1)
     used_params = {}
